@@ -297,6 +297,66 @@ def _rechunk_decision(ctx, P):
             ctx.report("R06.9", fi, inst, bad)
         else:
             ctx.ok("R06.9", inst, "merged" if want else "left as padded")
+    # one lazy input chunked along the core dimension next to an in-memory one: the lazy one still needs the merge
+    inst = "pad then merge boundary chunks, one lazy input chunked along the core dimension and one in-memory input"
+    mixed = {"a": {t: one, dy: one, dx: two}, "b": None}
+    am = {("DataArray", "chunks"): (lambda ev, o, n: None if mixed.get(o.name) is None else tuple(mixed[o.name][d] for d in (t, dy, dx))),
+          ("DataArray", "variable"): (lambda ev, o, n: Obj("Variable", "variable", (), {"chunksizes": dict(mixed.get(o.name) or {})})),
+          ("DataArray", "chunksizes"): (lambda ev, o, n: dict(mixed.get(o.name) or {}))}
+    try:
+        outs = run_apply(P, "(X:center),(X:center)->(X:left)", [(AX,), (AX,)], args=lambda: (make_da("a", [t, dy, dx]), make_da("b", [t, dy, dx])),
+                         boundary_width={"X": (1, 1)}, attr_models=am, dask="parallelized")
+        bad, seen = None, 0
+        for o in outs:
+            if o.kind != "return":
+                bad = f"raises {o.value}"
+                continue
+            for e in o.events:
+                if e[0] != "xr.apply_ufunc":
+                    continue
+                seen += 1
+                lazy = [x for x in e[1][1:] if isinstance(x, Obj) and x.name == "a"]
+                if len(lazy) != 1 or [x_[0] for x_ in lazy[0].eff if x_[0] in ("PAD", "RECHUNK")] != ["PAD", "RECHUNK"]:
+                    bad = "the lazy input keeps the lonely boundary chunks created by padding: xarray.apply_ufunc refuses a core dimension in several chunks"
+        if not seen and not bad:
+            bad = "xarray.apply_ufunc is never reached"
+        if bad:
+            ctx.report("R06.9", fi, inst, bad)
+        else:
+            ctx.ok("R06.9", inst, "merged")
+    except Unmodelled as e:
+        ctx.unknown("R06.9", inst, str(e))
+    # pad after the function (cumsum): the decision is taken on the *results*, whose core dimension is the output's
+    dout = dimsym("AX", "outer")
+    for cname, lazy, chunked in (("in-memory", False, False), ("lazy, result in one chunk per dimension", True, False), ("lazy, result chunked along its core dimension", True, True)):
+        inst = f"pad after the function, then merge boundary chunks, {cname}"
+
+        def sizes(o, lazy=lazy, chunked=chunked):
+            return {d: (two if (chunked and d == dout) else one) for d in o.attrs.get("dims", ())} if lazy else {}
+
+        am = {("DataArray", "chunks"): (lambda ev, o, n, lazy=lazy: tuple(sizes(o).values()) if lazy else None),
+              ("DataArray", "variable"): (lambda ev, o, n: Obj("Variable", "variable", (), {"chunksizes": sizes(o)})),
+              ("DataArray", "chunksizes"): (lambda ev, o, n: sizes(o))}
+        try:
+            outs = run_apply(P, "(X:center)->(X:outer)", [(AX,)], args=lambda: (make_da("a", [t, dy, dx]),), boundary_width={"X": (1, 0)}, pad_before_func=False,
+                             attr_models=am, dask="parallelized")
+        except Unmodelled as e:
+            ctx.unknown("R06.9", inst, str(e))
+            continue
+        bad = None
+        for o in outs:
+            if o.kind != "return":
+                bad = f"raises {o.value}" + (f" ({o.exc.msg})" if getattr(o.exc, "msg", None) else "") + ": the test for chunked core dimensions must look at the dimensions of the result"
+                continue
+            rc = [e for e in o.events if e[0] == "rechunk"]
+            if chunked and not rc:
+                bad = "the result is chunked along its core dimension, yet the boundary chunks created by padding it are not merged"
+            elif not chunked and rc:
+                bad = "no core dimension of the result is chunked, yet it is re-chunked"
+        if bad:
+            ctx.report("R06.9", fi, inst, bad)
+        else:
+            ctx.ok("R06.9", inst, "merged" if chunked else "left as padded")
 
 
 def _refusal(ctx, P):
@@ -341,6 +401,9 @@ def _refusal(ctx, P):
                         bad = bad or "the map_overlap wrapper is not built from the original (unpadded) arguments"
                     if b.get("boundary_width_real_axes") != {AX: (1, 0)}:
                         bad = bad or f"the wrapper receives widths {b.get('boundary_width_real_axes')!r}"
+                    icd = b.get("in_core_dims")
+                    if not (isinstance(icd, (list, tuple)) and [list(x) if isinstance(x, (list, tuple)) else x for x in icd] == [[dimsym("AX", fr)]]):
+                        bad = bad or f"the wrapper is told the core dimensions {icd!r}; the blocks it maps over are the inputs', whose core dimension is {dimsym('AX', fr)!r}"
             if bad:
                 ctx.report("R06.2", fi, inst, bad)
             else:
